@@ -126,6 +126,26 @@ void run_case(const uint8_t* data, size_t size, vf::Case& c) {
   uint8_t lsel = bs.u8();
   uint8_t lk = bs.u8();
   vf::UrlCase uc = vf::decode_url_case(bs, 8, true);
+  if (lk >= 190) {
+    // growth-source cases: operations whose result is longer than their argument suggests
+    // (the "/." guard and "//" of host-less URLs, percent-encoding, IDNA, inherited parts)
+    static const char* starts[] = {"foo:/bar", "a:/x", "web+demo:/a/b", "foo:/", "foo:/.//p", "foo://h/p", "non-spec:/..//p", "http://h/p", "file:///p", "foo:opaque", "http://1.2.3.4/", "ws://h"};
+    uc.has_base = false;
+    uc.base.clear();
+    uc.input = bs.pick(starts);
+    uc.ops.clear();
+    unsigned n = 1 + bs.below(3);
+    for (unsigned i = 0; i < n; i++) {
+      static const struct { int setter; const char* v; } grow[] = {
+          {vf::S_PATHNAME, "//abc"}, {vf::S_PATHNAME, "//"}, {vf::S_PATHNAME, "/.//x"}, {vf::S_PATHNAME, "//cdn/assets/app"}, {vf::S_PATHNAME, "/a/../..//b"}, {vf::S_PATHNAME, "/a b"},
+          {vf::S_HOST, ""}, {vf::S_HOST, "h"}, {vf::S_HOST, "x.y:8080"}, {vf::S_HOSTNAME, ""}, {vf::S_HOSTNAME, "\xc3\xbc.de"}, {vf::S_HOST, "1"},
+          {vf::S_SEARCH, " \"<>"}, {vf::S_HASH, "a b`"}, {vf::S_USERNAME, "\xc3\xbc"}, {vf::S_PASSWORD, "p w"}, {vf::S_PORT, "8080"}, {vf::S_PROTOCOL, "https"}, {vf::S_PROTOCOL, "bar"},
+          {vf::OP_CLEAR_SEARCH, ""}, {vf::S_HREF, "foo:/.//p"}};
+      auto& g = bs.pick(grow);
+      uc.ops.push_back({g.setter, g.setter == vf::S_PATHNAME && bs.chance(90) ? std::string("//") + vf::gen::path_segment(bs) + vf::gen::path(bs) : std::string(g.v)});
+    }
+    VF_TAG("growth_source_case");
+  }
   // sizes along the unlimited run, to place L relative to them
   std::vector<size_t> sizes;
   sizes.push_back(uc.input.size());
